@@ -244,9 +244,16 @@ def gen_class_with_init(rng, name="C_target", style=None):
             declared.append(pr["name"])
     if declared:
         lines.append("")
+    # a helper class nested in the class body with an __init__ of its own (before or after the outer one)
+    nested = ["    class ZqItem(object):", "        def __init__(self, zq_x, zq_weight=5.5):", "            self.zq_x = zq_x", ""] if rng.random() < 0.3 else []
+    nested_first = bool(nested) and rng.random() < 0.5
+    if nested_first:
+        lines += nested
     for l in f.src.rstrip("\n").split("\n"):
         lines.append("    " + l)
-    return FuncSpec(src="\n".join(lines) + "\n", init=f, name=name, cvars=cvars, declared=declared)
+    if nested and not nested_first:
+        lines += [""] + nested
+    return FuncSpec(src="\n".join(lines) + "\n", init=f, name=name, cvars=cvars, declared=declared, nested_class_with_init=bool(nested))
 
 
 # ------------------------------------------------------------------------------ modules
